@@ -118,6 +118,15 @@ void wide_all(sink& out, std::uint64_t salt)
     for (auto const& p : pats) {
         vs.push_back(from_words<W>(p));
     }
+    if (bits >= 1000) {
+        // BigInt judging of 1000..2048-bit operands costs ~0.2 s per division or shift event: keep at most ~120 values
+        std::vector<W> few;
+        std::size_t step = (vs.size() + 119) / 120;
+        for (std::size_t k = 0; k < vs.size(); k += step) {
+            few.push_back(vs[k]);
+        }
+        vs.swap(few);
+    }
     auto T = wdesc<W>();
     using namespace cnl::_impl;
     char const* names[8] = {"add", "sub", "mul", "div", "mod", "and", "or", "xor"};
